@@ -357,9 +357,17 @@ func (l *Lang) Shapes() map[string]*Shape {
 								}
 							}
 						}
+					case Fold, Idx:
+						// a chain built by a fold, or an element of a list: certainly an object, of a kind the summary does not track
+						if !sh.Unknown {
+							sh.Unknown, changed = true, true
+						}
 					default:
 						if !sh.Unknown {
 							sh.Unknown, changed = true, true
+						}
+						if !sh.MayNil {
+							sh.MayNil, changed = true, true
 						}
 					}
 				}
@@ -869,7 +877,7 @@ func (l *Lang) certain(p *Path, a *Action, v Val, shapes map[string]*Shape) bool
 		if x.Member == "list" {
 			return !sh.MayEmpty && !sh.MayNil && !sh.Unknown
 		}
-		return !sh.MayNil && !sh.Unknown
+		return !sh.MayNil
 	case *Obj:
 		return true
 	}
